@@ -1,3 +1,4 @@
+import RagcModel.Gen.Tables
 import RagcModel.Model.CollVarint
 import RagcModel.Model.Zigzag
 import RagcModel.Model.Names
@@ -184,5 +185,15 @@ example : ∃ ss, registerAll [] [([66], [120]), ([65], [121]), ([66], [122]), (
   obtain ⟨ss, h1, h2, h3⟩ := register_order
     [([66], [120]), ([65], [121]), ([66], [122]), ([65], [121]), ([66], [120])] (by decide)
   exact ⟨ss, h1, by rw [h2]; decide, by rw [h3]; decide, by rw [h3]; decide⟩
+
+/-! ### constants regenerated from the source (translator tie) -/
+
+/-- The thresholds, prefixes and masks that `tools/gen_tables.py` evaluates from the constant
+    expressions in `impl CollectionVarInt` (collection.rs) on every run are the ones the model of
+    the prefix varint hard-wires; a change of any of them in the source breaks this obligation. -/
+theorem collvarint_constants_pinned :
+    Ragc.Gen.collThr = [Ragc.CollVarint.THR1, Ragc.CollVarint.THR2, Ragc.CollVarint.THR3, Ragc.CollVarint.THR4] ∧
+    Ragc.Gen.collPref = [0, 0x80, 0xC0, 0xE0, 0xF0] ∧
+    Ragc.Gen.collMask = [0x80, 0xC0, 0xE0, 0xF0] := by decide
 
 end Ragc.Props.C03
